@@ -1,18 +1,22 @@
 #!/bin/bash
-# Mutation sanity check of the translator tie (rs2lean + Inkayaku/Props/Translated.lean).
+# Mutation sanity check of the translator tie (rs2lean + Inkayaku/Props/Translated/*.lean).
 #
 # For every mutation: copy ONE Rust source file to a scratch directory, apply a small edit (sed expression), run
 # rs2lean with `--override <file>=<scratch copy>` into a scratch output directory, compile the generated Lean files
-# into scratch .olean files and check Props/Translated.lean against them (scratch directory first on LEAN_PATH).
-# Semantic mutations must make the check FAIL, harmless rewrites must PASS.  /repo and /verif/lean are not modified.
+# that differ from the ones in /verif/lean into scratch .olean files and check every theorem file
+# Props/Translated/*.lean that (transitively) imports one of them against these (scratch directory first on
+# LEAN_PATH).  Semantic mutations must make the check FAIL, harmless rewrites must PASS.  /repo and /verif/lean are
+# not modified.
 #
-# usage: mutation_check.sh [repo root]        (needs `cargo build --offline` in /verif/translator and the Lean
-#                                              modules Inkayaku.Gen.Rs.* + model files built)
+# usage: mutation_check.sh [-k <substring of mutation names>] [repo root]
+#        (needs `cargo build --offline` in /verif/translator and `lake build Inkayaku.Props.Translated`)
 set -u
+FILTER=""
+if [ "${1:-}" = "-k" ]; then FILTER=$2; shift 2; fi
 REPO=${1:-/repo}
 HERE=$(cd "$(dirname "$0")" && pwd)
 LEANDIR=/verif/lean
-RS2LEAN=$HERE/target/debug/rs2lean
+RS2LEAN=${RS2LEAN:-$HERE/target/debug/rs2lean}
 WORK=$(mktemp -d /tmp/rs2lean-mut.XXXXXX)
 ZH=engine_core/src/engine/zobrist_history.rs
 BOARD=board/src/board.rs
@@ -22,6 +26,9 @@ KILLER=engine_core/src/engine/table/killer.rs
 MO=engine_core/src/engine/move_order.rs
 FEN=core/src/fen.rs
 SEARCH=engine_core/src/engine/search.rs
+TABLE=engine_core/src/engine/table.rs
+MAGIC=board/src/board/precalculated/magic.rs
+CONSTS=board/src/board/constants.rs
 
 # name | expected (FAIL/PASS) | file | sed expression
 MUTATIONS=(
@@ -48,6 +55,40 @@ MUTATIONS=(
 "think-time-div-60-to-30|FAIL|$SEARCH|s/time_remaining\.div(60)/time_remaining.div(30)/"
 "think-time-factor-not-dyadic|FAIL|$SEARCH|s/10\.\. => 0\.75,/10.. => 0.8,/"
 "UNSUPPORTED-loop-break|FAIL|$ZH|s/current_index -= 2;/current_index -= 2; if current_index == 7 { break; }/"
+# ---- HashTable (C18)
+"table-evict-gt-to-ge|FAIL|$TABLE|s/if self.entry_map.len() > self.capacity {/if self.entry_map.len() >= self.capacity {/"
+"table-push-on-overwrite|FAIL|$TABLE|s/if self.entry_map.insert(key, value).is_none() {/if self.entry_map.insert(key, value).is_some() {/"
+"table-no-map-remove|FAIL|$TABLE|s/self.entry_map.remove(&remove_key);//"
+"table-clear-keeps-queue|FAIL|$TABLE|s/self.entry_list.clear();//"
+"table-get-wrong-key|FAIL|$TABLE|s/self.entry_map.get(&key)/self.entry_map.get(\&(key + 1))/"
+"table-len-of-queue|FAIL|$TABLE|/fn len(&self) -> usize {/,/}/s/self.entry_map.len()/self.entry_list.len()/"
+"table-UNSUPPORTED-pop-back|FAIL|$TABLE|s/self.entry_list.pop_front().unwrap()/self.entry_list.pop_back().unwrap()/"
+"table-UNSUPPORTED-insert-late|FAIL|$TABLE|s/if self.entry_map.insert(key, value).is_none() {/if self.capacity > 0 \&\& self.entry_map.insert(key, value).is_none() {/"
+"table-HARMLESS-rename-local|PASS|$TABLE|s/remove_key/oldest/g"
+"table-HARMLESS-clear-order|PASS|$TABLE|/self.entry_list.clear();/{h;d};/self.entry_map.clear();/{G}"
+"table-HARMLESS-let-prev|PASS|$TABLE|s/if self.entry_map.insert(key, value).is_none() {/let prev = self.entry_map.insert(key, value); if prev.is_none() {/"
+# ---- magic index / lookup (C04)
+"magic-and-to-or|FAIL|$MAGIC|s/let i1 = occupancy \& mask;/let i1 = occupancy | mask;/"
+"magic-shr-to-shl|FAIL|$MAGIC|s/let i3 = i2 >> hash_shift;/let i3 = i2 << hash_shift;/"
+"magic-drop-hash-mask|FAIL|$MAGIC|s/let i4 = i3 \& hash_mask;/let i4 = i3;/"
+"magic-checked-mul|FAIL|$MAGIC|s/i1.overflowing_mul(magic).0/i1 * magic/"
+"magic-index-plus-one|FAIL|$MAGIC|s/self.attacks.get_unchecked(self.hash(occupancy))/self.attacks.get_unchecked(self.hash(occupancy) + 1)/"
+"magic-swap-mask-args|FAIL|$MAGIC|s/magic_hash(self.mask, self.hash_shift, self.hash_mask, self.magic, occupancy)/magic_hash(self.hash_mask, self.hash_shift, self.mask, self.magic, occupancy)/"
+"magic-HARMLESS-wrapping-mul|PASS|$MAGIC|s/i1.overflowing_mul(magic).0/i1.wrapping_mul(magic)/"
+"magic-HARMLESS-rename-local|PASS|$MAGIC|s/\bi1\b/masked/g"
+# ---- packed move word: constants, getters, setters (C02 / C03)
+"move-mask-wider|FAIL|$CONSTS|s/PIECE_ATTACKED_MASK: MaskBits = 0b111000;/PIECE_ATTACKED_MASK: MaskBits = 0b1111000;/"
+"move-shift-off-by-one|FAIL|$CONSTS|s/pub const TARGET_SQUARE_SHIFT: ShiftBits = TARGET_SQUARE_MASK.trailing_zeros();/pub const TARGET_SQUARE_SHIFT: ShiftBits = TARGET_SQUARE_MASK.trailing_zeros() + 1;/"
+"move-getter-wrong-shift|FAIL|$BOARD|s/(self.bits \& PIECE_ATTACKED_MASK) >> PIECE_ATTACKED_SHIFT/(self.bits \& PIECE_ATTACKED_MASK) >> PIECE_MOVED_SHIFT/"
+"move-getter-wrong-mask|FAIL|$BOARD|s/((self.bits \& TARGET_SQUARE_MASK) >> TARGET_SQUARE_SHIFT)/((self.bits \& SOURCE_SQUARE_MASK) >> TARGET_SQUARE_SHIFT)/"
+"move-setter-or-to-and|FAIL|$BOARD|s/self.bits |= (value as u64) << SOURCE_SQUARE_SHIFT/self.bits \&= (value as u64) << SOURCE_SQUARE_SHIFT/"
+"move-setter-or-to-xor|FAIL|$BOARD|s/self.bits |= HALFMOVE_RESET_MASK/self.bits ^= HALFMOVE_RESET_MASK/"
+"move-setter-wrong-shift|FAIL|$BOARD|s/self.bits |= value << PROMOTION_PIECE_SHIFT/self.bits |= value << PIECE_MOVED_SHIFT/"
+"move-is-attack-ne-to-eq|FAIL|$BOARD|s/self.get_piece_attacked() != NO_PIECE/self.get_piece_attacked() == NO_PIECE/"
+"move-is-castle-reads-ep|FAIL|$BOARD|s/pub const fn is_castle_move(\&self) -> bool { self.get_castle_move() != 0 }/pub const fn is_castle_move(\&self) -> bool { self.get_en_passant_attack() != 0 }/"
+"move-HARMLESS-shift-literal|PASS|$CONSTS|s/pub const PIECE_ATTACKED_SHIFT: ShiftBits = PIECE_ATTACKED_MASK.trailing_zeros();/pub const PIECE_ATTACKED_SHIFT: ShiftBits = 3;/"
+"move-HARMLESS-mask-hex|PASS|$CONSTS|s/PIECE_ATTACKED_MASK: MaskBits = 0b111000;/PIECE_ATTACKED_MASK: MaskBits = 0x38;/"
+"move-HARMLESS-getter-parens|PASS|$BOARD|s/(self.bits \& PIECE_MOVED_MASK) >> PIECE_MOVED_SHIFT/((self.bits) \& PIECE_MOVED_MASK) >> PIECE_MOVED_SHIFT/"
 )
 
 ok=0; bad=0
@@ -55,11 +96,14 @@ ORIG_LEAN_PATH=$(cd $LEANDIR && lake env printenv LEAN_PATH)
 REALLIB=$LEANDIR/.lake/build/lib/lean
 for m in "${MUTATIONS[@]}"; do
   IFS='|' read -r name expect file expr <<< "$m"
-  d=$WORK/$name; mkdir -p $d/src $d/gen $d/lib/Inkayaku/Gen/Rs
-  # overlay of the real build products: everything is a symlink except Inkayaku/Gen/Rs (a package is looked up in
-  # the first LEAN_PATH entry that contains its root directory, so the scratch lib must be complete)
-  for x in $REALLIB/Inkayaku/*; do [ "$(basename $x)" = Gen ] || ln -s $x $d/lib/Inkayaku/; done
+  case "$name" in *"$FILTER"*) ;; *) continue ;; esac
+  d=$WORK/$name; mkdir -p $d/src $d/gen $d/lib/Inkayaku/Gen/Rs $d/lib/Inkayaku/Props/Translated
+  # overlay of the real build products: everything is a symlink except Inkayaku/Gen/Rs and Inkayaku/Props/Translated
+  # (a package is looked up in the first LEAN_PATH entry that contains its root directory, so the scratch lib must
+  # be complete)
+  for x in $REALLIB/Inkayaku/*; do case "$(basename $x)" in Gen|Props) ;; *) ln -s $x $d/lib/Inkayaku/ ;; esac; done
   for x in $REALLIB/Inkayaku/Gen/*; do [ "$(basename $x)" = Rs ] || ln -s $x $d/lib/Inkayaku/Gen/; done
+  for x in $REALLIB/Inkayaku/Props/*; do [ "$(basename $x)" = Translated ] || ln -s $x $d/lib/Inkayaku/Props/; done
   cp $REPO/$file $d/src/mutated.rs
   sed -i -e "$expr" $d/src/mutated.rs
   if [ "$expect" = FAIL ] && cmp -s $REPO/$file $d/src/mutated.rs; then
@@ -69,29 +113,57 @@ for m in "${MUTATIONS[@]}"; do
   if ! $RS2LEAN $REPO $d/gen --override $file=$d/src/mutated.rs > $d/rs2lean.log 2>&1; then
     result=FAIL; why="rs2lean: $(tail -1 $d/rs2lean.log)"
   else
-    # compile the generated modules in dependency order (= order of imports) into the scratch lib
-    order=$(cd $d/gen && python3 - <<'EOF'
-import re,os
-mods={f[:-5]:re.findall(r'^import Inkayaku\.Gen\.Rs\.(\w+)',open(f).read(),re.M) for f in os.listdir('.') if f.endswith('.lean')}
-done=[]
+    # plan: generated modules in import order, marked changed/unchanged (unchanged ones whose imports are unchanged are
+    # linked, not recompiled); theorem files that transitively import a changed module, in import order
+    plan=$(python3 - $d/gen $LEANDIR <<'EOF'
+import re, os, sys
+gen, leandir = sys.argv[1], sys.argv[2]
+real = os.path.join(leandir, 'Inkayaku', 'Gen', 'Rs')
+mods = {f[:-5]: re.findall(r'^import Inkayaku\.Gen\.Rs\.(\w+)', open(os.path.join(gen, f)).read(), re.M) for f in os.listdir(gen) if f.endswith('.lean')}
+order = []
 def visit(m):
-    if m in done: return
-    for d in mods[m]: visit(d)
-    done.append(m)
+    if m in order: return
+    for x in mods[m]: visit(x)
+    order.append(m)
 for m in sorted(mods): visit(m)
-print(' '.join(done))
+dirty = set()
+for m in order:
+    rp = os.path.join(real, m + '.lean')
+    same = os.path.exists(rp) and open(rp).read() == open(os.path.join(gen, m + '.lean')).read()
+    if not same or any(x in dirty for x in mods[m]): dirty.add(m)
+tdir = os.path.join(leandir, 'Inkayaku', 'Props', 'Translated')
+thms = {}
+for f in os.listdir(tdir):
+    if f.endswith('.lean'):
+        src = open(os.path.join(tdir, f)).read()
+        thms[f[:-5]] = (re.findall(r'^import Inkayaku\.Gen\.Rs\.(\w+)', src, re.M), re.findall(r'^import Inkayaku\.Props\.Translated\.(\w+)', src, re.M))
+torder = []
+def tvisit(t):
+    if t in torder: return
+    for x in thms[t][1]: tvisit(x)
+    torder.append(t)
+for t in sorted(thms): tvisit(t)
+tdirty = []
+for t in torder:
+    if any(g in dirty for g in thms[t][0]) or any(x in tdirty for x in thms[t][1]): tdirty.append(t)
+for m in order: print('GEN', m, 'dirty' if m in dirty else 'clean')
+for t in torder: print('THM', t, 'dirty' if t in tdirty else 'clean')
 EOF
 )
-    for mod in $order; do
-      if ! (cd $d/gen && LEAN_PATH=$d/lib:$ORIG_LEAN_PATH lean -o $d/lib/Inkayaku/Gen/Rs/$mod.olean $mod.lean > $d/$mod.log 2>&1); then
-        result=FAIL; why="generated $mod.lean does not compile: $(grep -m1 error $d/$mod.log)"; break
+    while read -r kind mod state; do
+      [ $result = PASS ] || break
+      if [ $kind = GEN ]; then
+        if [ $state = clean ]; then ln -s $REALLIB/Inkayaku/Gen/Rs/$mod.olean $REALLIB/Inkayaku/Gen/Rs/$mod.ilean $d/lib/Inkayaku/Gen/Rs/ 2>/dev/null
+        elif ! (cd $d/gen && LEAN_PATH=$d/lib:$ORIG_LEAN_PATH lean -o $d/lib/Inkayaku/Gen/Rs/$mod.olean $mod.lean > $d/$mod.log 2>&1); then
+          result=FAIL; why="generated $mod.lean does not compile: $(grep -m1 error $d/$mod.log)"
+        fi
+      else
+        if [ $state = clean ]; then ln -s $REALLIB/Inkayaku/Props/Translated/$mod.olean $d/lib/Inkayaku/Props/Translated/ 2>/dev/null
+        elif ! (cd $LEANDIR && LEAN_PATH=$d/lib:$ORIG_LEAN_PATH timeout 600 lean -o $d/lib/Inkayaku/Props/Translated/$mod.olean Inkayaku/Props/Translated/$mod.lean > $d/thm-$mod.log 2>&1); then
+          result=FAIL; why="Props/Translated/$mod.lean: $(grep -m1 'error' $d/thm-$mod.log)"
+        fi
       fi
-    done
-    if [ $result = PASS ]; then
-      if ! (cd $LEANDIR && LEAN_PATH=$d/lib:$ORIG_LEAN_PATH lean Inkayaku/Props/Translated.lean > $d/translated.log 2>&1); then
-        result=FAIL; why="Props/Translated.lean: $(grep -m1 'error' $d/translated.log)"
-      fi
-    fi
+    done <<< "$plan"
   fi
   if [ $result = $expect ]; then ok=$((ok+1)); verdict=as-expected; else bad=$((bad+1)); verdict=UNEXPECTED; fi
   echo "[$name] expected $expect, got $result ($verdict) $why"
